@@ -14,7 +14,7 @@ from props import tmlib as T
 from props.common import load_def, outcome
 
 RULE = ("random valid tables: 1-4 working + 1-2 final states, 2-4 tape symbols, moves L/R/N under five direction "
-        "profiles (uniform, left-heavy, right-heavy, stay-heavy, zigzag), blanks written, missing entries; each table read "
+        "profiles (uniform, left-heavy, right-heavy, stay-heavy, zigzag), blanks written, missing entries, in one nondeterministic or multitape table out of ten an entry with an empty list of alternatives; each table read "
         "as DTM, NTM (1-2 alternatives) and MNTM (1-3 tapes) on '' and random words (incl. tape-only and foreign symbols) "
         "under a step budget; one deterministic table as DTM vs NTM vs 1-tape MNTM; distinct = distinct (kind, canonical "
         "table, word); non-trivial = at least two steps executed and a tape was blank-extended (a head ran off an end of the initially occupied cells)")
@@ -226,6 +226,8 @@ def check_mntm(ctx, batch, md, word, B, tag):
         roam = any(extended([c.tapes[j] for c in cfgs], len(word) if j == 0 else 1) for j in range(md["k"]))
         if roam:
             ctx.tally("mntm_tape_extended")
+        if any(md["table"].get(cc[0], {}).get(tuple(t[1] for t in cc[1])) == [] for cc in ccs):
+            ctx.tally("mntm_visited_entry_without_alternative")
         ctx.case(("mntm", canon, word), nontrivial=len(items) > 2 and roam,
                  sample={"kind": "mntm", "tapes": md["k"], "table": repr(md["table"]), "word": word, "visited": len(items),
                          "outcome": out[:2]})
@@ -308,7 +310,8 @@ HAND = [
                       (".", "."): [("b", ((".", "L"), (".", "L")))]},
                 "b": {("a", "a"): [("b", (("a", "L"), ("a", "L")))], ("b", "b"): [("b", (("b", "L"), ("b", "L")))],
                       (".", "."): [("f", ((".", "L"), (".", "N")))]}}),
-    # an entry with an empty list of alternatives (constructor accepts it; possible_transitions[0] raises IndexError)
+    # an entry with an empty list of alternatives (the constructor accepts it): no transition, like a missing entry
+    # (`if not possible_transitions`; the code before the repair did possible_transitions[0] and raised IndexError)
     dict(states=["q", "f"], finals=["f"], input_symbols="a", tape_symbols=".a", blank=".", initial="q", k=1, profile="hand-empty",
          table={"q": {("a",): [("q", (("a", "R"),))], (".",): []}}),
 ]
@@ -321,21 +324,17 @@ def run(ctx):
     batch = Batch(ctx)
     for md in HAND:
         words = ["", "a", "aa", "aaa"] if md["input_symbols"] == "a" else ["", "a", "ab", "abba"]
-        if md["profile"] == "hand-empty":
-            for w in words:
-                check_mntm(ctx, batch, md, w, B, "hand")
-        else:
-            run_machine(ctx, batch, md, words, B, "hand")
+        run_machine(ctx, batch, md, words, B, "hand")      # (hand-empty: no DTM view; read as NTM and MNTM)
     n = ctx.n(110, 450)
     for i in range(n):
         # deterministic single-tape table: all three simulators + cross-model verdicts
         md = T.rand_table(rng, k=1, nondet=False)
         run_machine(ctx, batch, md, T.rand_words(rng, md, 5), B, "random-det")
         # nondeterministic single-tape table: NTM levels and MNTM BFS
-        md = T.rand_table(rng, k=1, nondet=True)
+        md = T.rand_table(rng, k=1, nondet=True, empty=None)
         run_machine(ctx, batch, md, T.rand_words(rng, md, 4), B, "random-nondet")
         # 2 and 3 tapes
-        md = T.rand_table(rng, k=rng.choice([2, 2, 3]), nondet=rng.random() < 0.5)
+        md = T.rand_table(rng, k=rng.choice([2, 2, 3]), nondet=rng.random() < 0.5, empty=None)
         run_machine(ctx, batch, md, T.rand_words(rng, md, 4), B, "random-multitape")
     batch.flush()
     if ctx.tier == "thorough":
